@@ -3,6 +3,7 @@ package c04
 import (
 	"context"
 	"fmt"
+	"sync"
 	"sync/atomic"
 	"testing"
 	"time"
@@ -103,6 +104,86 @@ func TestProp_PingPong(t *testing.T) {
 		if stuckAt >= 0 {
 			rt.Fatalf("VERIF-VIOLATION C04: burst %d: %d iterations were requested so far but only %d were started or dropped within 10 s of the last tick, with %d workers that have nothing to do - a worker that was going idle slept through the tick",
 				stuckAt, requested, got, conc)
+		}
+	})
+}
+
+// TestProp_ScriptedAllWorkersPickUp: all `concurrency` workers are brought to the point between
+// the emptiness test and take at the same moment (a barrier on the yield point), with
+// concurrency + extra requests pending, and released together. All `concurrency` of them must
+// end up executing at the same time (bodies wait for each other).
+func TestProp_ScriptedAllWorkersPickUp(t *testing.T) {
+	rapid.Check(t, func(rt *rapid.T) {
+		conc := rapid.IntRange(2, 10).Draw(rt, "concurrency")
+		first := conc + rapid.IntRange(0, 2*conc).Draw(rt, "extra")
+		bar := vlib.NewBarrier("pool.worker.before_take", int32(conc), 3*time.Second)
+		remove := vlib.InstallHooks(nil, nil, []*vlib.Barrier{bar})
+		defer remove()
+
+		st := &progress.Stats{}
+		m := metrics.NewInstance(prometheus.NewRegistry(), false, nil)
+		logger := log.NewDiscardLogger()
+		var inside, high atomic.Int64
+		open := make(chan struct{})
+		var once sync.Once
+		sc := &scenarios.Scenario{Name: "c04", ScenarioFn: func(*f1testing.T) f1testing.RunFn {
+			return func(*f1testing.T) {
+				n := inside.Add(1)
+				for {
+					h := high.Load()
+					if n <= h || high.CompareAndSwap(h, n) {
+						break
+					}
+				}
+				if n >= int64(conc) {
+					once.Do(func() { close(open) })
+				}
+				select {
+				case <-open:
+				case <-time.After(5 * time.Second):
+				}
+				inside.Add(-1)
+			}
+		}}
+		as := workers.NewActiveScenario(sc, m, st, logger, log.NewSlogLogrusLogger(logger))
+		as.Setup()
+		pm := workers.New(0, as)
+		pool := pm.NewTriggerPool(conc)
+		ctx, cancel := context.WithCancel(context.Background())
+		defer cancel()
+		wctx := pool.Start(ctx)
+		pool.Trigger(wctx, first)
+		reached := false
+		select {
+		case <-bar.Full():
+			reached = true
+		case <-time.After(3 * time.Second):
+		}
+		opened := false
+		select {
+		case <-open:
+			opened = true
+		case <-time.After(6 * time.Second):
+		}
+		cancel()
+		once.Do(func() { close(open) })
+		select {
+		case <-pm.WaitForCompletion():
+		case <-time.After(20 * time.Second):
+		}
+		cls := []string{}
+		if reached {
+			cls = append(cls, "barrier-full")
+		}
+		if first%conc != 0 {
+			cls = append(cls, "requests-not-multiple-of-workers")
+		}
+		stats.Case("scripted-pickup", fmt.Sprint(conc, first), reached, cls, func() any {
+			return map[string]any{"script": "all workers released together between the emptiness test and take", "concurrency": conc, "requests": first, "max_executing": high.Load()}
+		})
+		if !opened {
+			rt.Fatalf("VERIF-VIOLATION C04: %d requests were pending and all %d workers were released together just before taking one; at most %d iterations executed at the same time within 6 s",
+				first, conc, high.Load())
 		}
 	})
 }
